@@ -4,7 +4,7 @@ import defmachine
 import gen
 from props import common
 
-MEMBER_POOL = [("m0", "method"), ("m1", "method"), ("s0", "static"), ("c0", "class"), ("p0", "prop")]
+MEMBER_POOL = [("m0", "method"), ("m1", "method"), ("s0", "static"), ("c0", "class"), ("p0", "prop"), ("a0", "amethod")]
 
 
 def _cspec(r, forms):
@@ -120,12 +120,15 @@ def generate(r, tier, prop):
             r.shuffle(pool)
             if diamond is not None:
                 # override a member of the common ancestor (preferably one with snapshots) in the most derived class
-                anc = [(m, classes[diamond]["own"][m]["kind"]) for m in sorted(classes[diamond]["own"]) if classes[diamond]["own"][m]["kind"] != "alias"]
+                anc = [(m, classes[diamond]["own"][m]["kind"]) for m in sorted(classes[diamond]["own"]) if classes[diamond]["own"][m]["kind"] not in ("alias", "shared")]
                 anc.sort(key=lambda x: not classes[diamond]["own"][x[0]]["snaps"])
                 if anc:
                     pool = [anc[0]] + [p for p in pool if p[0] != anc[0][0]]
             for m, kind in pool[: r.randint(1, 3)]:
                 ms = {"name": m, "kind": kind}
+                if kind == "amethod":
+                    ms = {"name": m, "kind": "method", "async": True}
+                    kind = "method"
                 base_has = [b for b in bases if has_member(b, m)]
                 can_pre = (not base_has) or any(eff_pre(b, m) for b in base_has)
                 ms["pre"] = [_cspec(r, forms) for _ in range(r.randint(0, 2))] if can_pre else []
@@ -136,6 +139,13 @@ def generate(r, tier, prop):
                     ms["wraps"] = True  # a foreign functools.wraps decorator above the contract decorators
                 info["own"][m] = {"pre": ms["pre"], "kind": kind, "snaps": [s["name"] for s in ms.get("snaps", [])], "post": ms["post"]}
                 spec["methods"].append(ms)
+            if bases and r.random() < 0.15:
+                # the member is implemented by a plain function that other classes use as well (``put = _put_impl``)
+                cands = sorted(m for b in bases for m in classes[b]["own"] if classes[b]["own"][m]["kind"] == "method" and m not in info["own"])
+                if cands:
+                    m = r.choice(cands)
+                    spec["methods"].append({"name": m, "kind": "shared", "impl": r.randint(0, 1)})
+                    info["own"][m] = {"pre": [], "kind": "shared", "snaps": [], "post": []}
             if bases and r.random() < p_alias:
                 # re-export of a base's function object in the subclass namespace
                 b = bases[0]
@@ -175,6 +185,8 @@ def generate(r, tier, prop):
                 if cands:
                     c, m = r.choice(cands)
                     mk = [classes[y]["own"][m]["kind"] for y in mro(c) if m in classes[y]["own"]][0]
+                    if mk in ("shared", "alias"):
+                        mk = "method"
                     spec = {"name": "B%d" % i, "base": c, "methods": [{"name": m, "kind": mk, "pre": [{}], "post": []}], "invs": []}
                     if r.random() < 0.5:
                         spec["invs"].append({"check_on": r.choice(["CALL", "SETATTR", "ALL"])})
